@@ -1250,9 +1250,11 @@ class ProcessPoolExecutor(Executor):
                         None, _python_exit, exitpriority=20
                     )
                 else:
-                    process_pool_executor_at_exit = threading._register_atexit(
-                        _python_exit
-                    )
+                    # (threading._register_atexit returns None: record that
+                    # the hook is registered, or it is registered again for
+                    # every executor)
+                    threading._register_atexit(_python_exit)
+                    process_pool_executor_at_exit = True
 
     def _adjust_process_count(self):
         while len(self._processes) < self._max_workers:
